@@ -39,13 +39,23 @@ def make_data(c):
     return X
 
 
+def _gaps(c, Z):
+    """the point gaps that bound window variances from below: adjacent differences for contiguous
+    windows; all pairwise differences where the scorer pools the two sides of an inner interval
+    (LocalAnomalyScore, i.e. circular binary segmentation), which makes non-adjacent points neighbours"""
+    if c.get("det") == "cbs" or c.get("scorer", "").startswith("loc-"):
+        Zs = np.sort(Z, axis=0)
+        return np.abs(np.diff(Zs, axis=0))
+    return np.abs(np.diff(Z, axis=0))
+
+
 def at_floor(c, *datasets):
     """Gaussian costs are only claimed invariant above the 1e-16 variance floor"""
     uses_gauss = "gvar" in c.get("scorer", "") or c.get("cost") == "gvar"
     if not uses_gauss:
         return False
     for Z in datasets:
-        d = np.abs(np.diff(Z, axis=0))  # window variances are bounded below by ~0.2 x the squared smallest adjacent difference; 1e-13 leaves three orders of margin
+        d = _gaps(c, Z)  # window variances are bounded below by ~0.2 x the squared smallest adjacent difference; 1e-13 leaves three orders of margin
         if d.size and (d.min() / 2) ** 2 < 1e-13:
             return True
     return False
@@ -60,7 +70,7 @@ def gauss_log_error(c, *datasets):
         return 0.0
     worst = 0.0
     for Z in datasets:
-        d = np.abs(np.diff(Z, axis=0))
+        d = _gaps(c, Z)
         vmin = 0.2 * float(d.min()) ** 2 if d.size else 1.0
         mag2 = float(np.abs(Z).max()) ** 2
         worst = max(worst, 2.2e-16 * len(Z) * mag2 / max(vmin, 1e-300))
